@@ -260,6 +260,32 @@ pub fn gen_cfg(prop: &str, seed: u64) -> RunCfg {
             }
             cfg
         }
+        "C03" | "C05" if g.rng.pct(6) => {
+            // the read-only embedded backend: observers (and refused mutators) over the fixture
+            // and a few absent / almost-present paths
+            let spec = Spec::Emb;
+            let m = spec.view();
+            let mut paths: Vec<String> = m.t.keys().cloned().collect();
+            for extra in ["/a.tx", "/a.txt/x", "/sub/n.tx", "/sub/deep/er/e", "/zz", "/su"] {
+                paths.push(extra.to_string());
+            }
+            let mut ops = vec![];
+            for _ in 0..g.rng.range(4, 20) {
+                let p = P::new(&paths[g.rng.below(paths.len())]);
+                ops.push(match g.rng.below(9) {
+                    0 => Op::Exists(p),
+                    1 => Op::Metadata(p),
+                    2 => Op::ReadDir(p),
+                    3 => Op::ReadFile(p, 7),
+                    4 => Op::WalkDir(p),
+                    5 => Op::IsDir(p),
+                    6 => Op::CreateDir(p),
+                    7 => Op::RemoveFile(p),
+                    _ => Op::ReadToString(p),
+                });
+            }
+            base_cfg(prop, "unrestricted", seed, &mut g, vec![spec], ops)
+        }
         "C03" | "C05" => {
             let pp = phys_pct_for(&mut g.rng);
             let spec = if g.rng.pct(50) { overlay_stack(&mut g, pp, 1, 3) } else { any_stack(&mut g, pp) };
@@ -270,6 +296,33 @@ pub fn gen_cfg(prop: &str, seed: u64) -> RunCfg {
             let w = swarm_weights(&mut g.rng, &W_DEFAULT);
             let ops = gen_history(&mut g, &mut world, n, &w);
             base_cfg(prop, "unrestricted", seed, &mut g, vec![spec], ops)
+        }
+        "C11" if g.rng.pct(7) => {
+            // the read-only embedded backend as the SOURCE of copies into a writable filesystem
+            let dst = g.leaf(40);
+            let specs = vec![Spec::Emb, dst];
+            let mut world = World { m: specs.iter().map(|s| s.view()).collect(), w: Default::default() };
+            let srcs: Vec<String> = world.m[0].t.keys().cloned().collect();
+            let mut ops = vec![];
+            let mut n = 0;
+            for _ in 0..g.rng.range(2, 8) {
+                let s = srcs[g.rng.below(srcs.len())].clone();
+                n += 1;
+                let d = format!("/{}{}", g.name(), n);
+                let op = if world.m[0].is_dir(&s) { Op::CopyDir(P::on(0, &s), P::on(1, &d)) } else { Op::CopyFile(P::on(0, &s), P::on(1, &d)) };
+                if matches!(world.clone().apply(&op), Want::Unspec) {
+                    continue;
+                }
+                world.apply(&op);
+                ops.push(op);
+                if g.rng.pct(40) {
+                    ops.push(Op::WalkDir(P::on(1, "")));
+                    world.apply(ops.last().unwrap());
+                }
+            }
+            let mut cfg = base_cfg(prop, "contract", seed, &mut g, specs, ops);
+            cfg.extra.insert("pair".into(), "embedded-source".into());
+            cfg
         }
         "C11" => {
             // ordered pairs: same instance / two instances of one backend / two different stacks
@@ -453,6 +506,12 @@ pub fn gen_cfg(prop: &str, seed: u64) -> RunCfg {
                 2 => any_stack(&mut g, pp),
                 _ => overlay_stack(&mut g, pp, 1, 3),
             };
+            let mut spec = spec;
+            if !matches!(spec, Spec::Emb) && spec.pre_total() == 0 && g.rng.pct(60) {
+                // handles on files that exist in (several) layers from the start
+                let view = g.gen_view(6);
+                g.populate(&mut spec, &view, false);
+            }
             let ops = handle_script(&mut g, &spec);
             let mut cfg = base_cfg(prop, "handles", seed, &mut g, vec![spec], ops);
             if g.rng.pct(40) {
@@ -465,12 +524,19 @@ pub fn gen_cfg(prop: &str, seed: u64) -> RunCfg {
             let spec = match g.rng.weighted(&[45, 30, 25]) {
                 0 => g.leaf(pp),
                 1 => Spec::Alt { inner: Box::new(g.leaf(pp)), p: g.alt_p(true) },
+                _ if g.rng.pct(20) => Spec::OvlSub { base: Box::new(g.leaf(pp)), dirs: LAYER_DIRS.iter().take(2).map(|s| s.to_string()).collect() },
                 _ => {
                     let n = g.rng.range(1, 3);
                     Spec::Ovl { layers: (0..n).map(|_| g.leaf(pp)).collect() }
                 }
             };
             let all_mem = !spec.has_phys();
+            let mut spec = spec;
+            if g.rng.pct(60) {
+                // entries that exist in several layers / below the altroot from the start
+                let view = g.gen_view(6);
+                g.populate(&mut spec, &view, false);
+            }
             let mut world = World { m: vec![spec.view()], w: Default::default() };
             g.avoid_known = spec.has_ovl();
             let grow: [u32; 19] = [0, 1, 0, 0, 0, 1, 0, 0, 8, 2, 1, 1, 0, 12, 8, 1, 1, 0, 0];
@@ -812,14 +878,15 @@ pub fn handle_script(g: &mut Gen, spec: &Spec) -> Vec<Op> {
     let mut ops = vec![];
     let emb = matches!(spec, Spec::Emb);
     let all_mem = !spec.has_phys();
-    let mut files: Vec<(String, i64)> = vec![];
+    let mut files: Vec<(String, i64)> = spec.view().t.iter().filter_map(|(k, n)| if let Node::File(b) = n { Some((k.clone(), b.len() as i64)) } else { None }).collect();
     if emb {
         files = vec![("/a.txt".into(), 5), ("/ab".into(), 1), ("/empty".into(), 0), ("/sub/n.txt".into(), 6), ("/sub/deep/bin.dat".into(), 11), ("/ü.txt".into(), 8)];
     } else {
+        let view = spec.view();
         for _ in 0..g.rng.range(1, 3) {
             let name = g.name();
             let p = format!("/{}", name);
-            if files.iter().any(|f| f.0 == p) {
+            if files.iter().any(|f| f.0 == p) || view.exists(&p) {
                 continue;
             }
             let pl = g.payload();
@@ -828,6 +895,9 @@ pub fn handle_script(g: &mut Gen, spec: &Spec) -> Vec<Op> {
         }
     }
     let offsets = |g: &mut Gen, len: i64| -> i64 { *g.rng.pick(&[0, 0, 1, -1, 2, -2, len, len + 1, len - 1, -len, -len - 1, len / 2, -(len / 2), 5, 100, 70_000, -70_000, 1i64 << 40, -(1i64 << 40)]) };
+    if files.is_empty() {
+        return ops;
+    }
     for _ in 0..g.rng.range(1, 4) {
         let (p, flen) = files[g.rng.below(files.len())].clone();
         if emb || g.rng.pct(60) {
